@@ -23,6 +23,7 @@ import (
 type c20Step struct {
 	FromClient bool
 	N          int
+	PauseMs    int // the sender waits this long before sending (time passing inside a session)
 }
 
 var c20Sizes = []int{0, 1, 125, 126, 65536, 100000}
@@ -31,7 +32,7 @@ func c20Scripts(maxLen int) [][]c20Step {
 	var alpha []c20Step
 	for _, fc := range []bool{true, false} {
 		for _, n := range c20Sizes {
-			alpha = append(alpha, c20Step{fc, n})
+			alpha = append(alpha, c20Step{fc, n, 0})
 		}
 	}
 	out := [][]c20Step{{}}
@@ -101,6 +102,9 @@ func c20SessionHS(h *helios, be *wire.Backend, script []c20Step, serverCloses bo
 					return
 				}
 			} else {
+				if st.PauseMs > 0 {
+					time.Sleep(time.Duration(st.PauseMs) * time.Millisecond)
+				}
 				if _, err := c.Write(c20Data(i, st.N)); err != nil {
 					srvDone <- fmt.Sprintf("step %d: server write: %v", i, err)
 					return
@@ -155,6 +159,9 @@ func c20SessionHS(h *helios, be *wire.Backend, script []c20Step, serverCloses bo
 	}
 	for i, st := range script {
 		if st.FromClient {
+			if st.PauseMs > 0 {
+				time.Sleep(time.Duration(st.PauseMs) * time.Millisecond)
+			}
 			if _, err := c.Write(c20Data(i, st.N)); err != nil {
 				res.clientErr = fmt.Sprintf("step %d: client write: %v", i, err)
 				break
@@ -282,7 +289,7 @@ func TestVerifC20Tunnel(t *testing.T) {
 			// the other legal spellings of the handshake, one short session each
 			if pi == 0 && len(chain) <= 1 {
 				for hs := 1; hs < len(c20Handshakes); hs++ {
-					sc := []c20Step{{true, 125}}
+					sc := []c20Step{{true, 125, 0}}
 					res := c20SessionHS(h, be, sc, false, hs)
 					evals++
 					outs.Add(fmt.Sprintf("handshake%d/chain%d/%v", hs, len(chain), res.clientErr == "" && res.serverErr == ""))
@@ -296,8 +303,59 @@ func TestVerifC20Tunnel(t *testing.T) {
 			be.Close()
 		}
 	}
+	// time passing inside a session: with every configured timeout at 1 s a session stays up
+	// while both sides are silent for longer than that, and while only one side talks
+	quiet := [][]c20Step{
+		{{true, 10, 0}, {false, 10, 0}, {true, 10, 1600}, {false, 10, 0}},
+		{{true, 10, 0}, {false, 10, 0}, {true, 10, 300}, {true, 10, 300}, {true, 10, 300}, {true, 10, 300}, {true, 10, 300}, {true, 10, 300}, {false, 10, 0}},
+		{{true, 10, 0}, {false, 10, 0}, {false, 10, 300}, {false, 10, 300}, {false, 10, 300}, {false, 10, 300}, {false, 10, 300}, {false, 10, 300}, {true, 10, 0}},
+	}
+	quietChains := append([][]string{{}}, c20Chains(1)[1:]...)
+	if th {
+		quietChains = c20Chains(2)
+	}
+	for _, chain := range quietChains {
+		idx++
+		if idx%shards != shard {
+			continue
+		}
+		be := wire.NewBackend("b0")
+		cfg := baseConfig("round_robin", be.URL())
+		cfg.Server.Timeouts = config.TimeoutConfig{Read: 1, Write: 1, Idle: 1, Handler: 1, Shutdown: 1, BackendDial: 1, BackendRead: 1, BackendIdle: 1}
+		if len(chain) > 0 {
+			cfg.Plugins.Enabled = true
+			for _, n := range chain {
+				pc := c17Valid[n]
+				if n == "size_limit" {
+					pc = sizeLimitCfg(1<<20, 1<<20)
+				}
+				cfg.Plugins.Chain = append(cfg.Plugins.Chain, pc)
+			}
+		}
+		h, err := startHelios(cfg)
+		if err != nil {
+			t.Fatalf("chain %v: %v", chain, err)
+		}
+		for qi, sc := range quiet {
+			for _, serverCloses := range []bool{false, true} {
+				if qi > 0 && serverCloses {
+					continue
+				}
+				res := c20Session(h, be, sc, serverCloses)
+				evals++
+				kind := []string{"both-silent-1.6s", "only-client-talks-1.8s", "only-server-talks-1.8s"}[qi]
+				desc := fmt.Sprintf("every timeout 1s, chain=%v, session %s, closer=%s", chain, kind, map[bool]string{true: "server", false: "client"}[serverCloses])
+				outs.Add(fmt.Sprintf("quiet/%s/chain%d/%v", kind, len(chain), res.clientErr == "" && res.serverErr == ""))
+				if res.clientErr != "" || res.serverErr != "" {
+					r.Violate("C20/tunnel/session-ended-by-helios/"+kind, fmt.Sprintf("%s: neither side had closed, but: client: %s | server: %s", desc, res.clientErr, res.serverErr), len(chain)*10+qi, map[string]interface{}{"engine": "W", "test": "TestVerifC20Tunnel", "chain": chain, "script": sc, "server_closes": serverCloses, "timeouts": 1})
+				}
+			}
+		}
+		h.stop()
+		be.Close()
+	}
 	r.AddScenario(vres.Scenario{Name: "upgrade-tunnels", Engine: "W", Evaluations: evals, Distinct: int64(outs.N()), Outcomes: outs.N(),
-		Rule:       "one evaluation = one Upgrade session through the real handler chain and reverse proxy following a lock-step byte script (sizes 0, 1, 125, 126, 65536, 100000 in either direction) ended by either side; distinct = (script length, chain length, verdict) classes",
+		Rule:       "one evaluation = one Upgrade session through the real handler chain and reverse proxy following a lock-step byte script (sizes 0, 1, 125, 126, 65536, 100000 in either direction) ended by either side; plus, with every configured timeout at 1 s, sessions in which both sides are silent for 1.6 s or only one side talks for 1.8 s; distinct = (script length, chain length, verdict) classes",
 		Bound:      map[bool]string{false: "chains <= 2 x scripts <= 1, chains <= 1 x scripts <= 2, both closers", true: "chains <= 2 x scripts <= 2, chains <= 3 x scripts <= 1, chains <= 1 x scripts <= 3, both closers"}[th],
 		Exhaustive: true, Sample: sample, Extra: map[string]interface{}{"wall_s": time.Since(start).Seconds()}})
 }
